@@ -112,6 +112,17 @@ theorem f29_not_delimited :
     persisted r = true ∧ parseResp 100 (respond r a) = none ∧ parseResp 100 (respond r a ++ respond r a) = none := by
   decide
 
+/-- … and not only on that witness: EVERY HTTP/1.0 response of a well-formed app without Content-Length is refused by the
+framing parser, whatever follows it on the wire (so on a kept-alive connection it cannot be told from the next response) -/
+theorem undelimited_never_parses (r : Req) (a : App) (tail : Bytes) (wf : WFApp a) (h : r.ver = 0 ∧ a.clen = none)
+    (fuel : Nat) (hf : (finalHeaders r a).length + 3 ≤ fuel) :
+    parseResp fuel (respond r a ++ tail) = none := by
+  apply parseResp_undelimited r a tail wf _ fuel hf
+  intro hd
+  rcases hd with hd | hd
+  · rw [h.2] at hd; exact absurd hd (by decide)
+  · exact hd h.1
+
 /-! non-vacuity: a concrete well-formed app with headers, empty pieces and a return value -/
 example : WFApp ⟨lit "404 Not Found", [(lit "Set-Cookie", lit "a=1"), (lit "x-b", lit "")], none, [lit "ab", [], lit "cd"], lit "t"⟩ :=
   ⟨by decide, by decide, by decide, by decide, by decide, by intro L h; cases h⟩
